@@ -242,6 +242,20 @@ class SymStr:
                 out.extend(ord(x) for x in r)
         return mks(out)
 
+    def __getattr__(self, name):
+        """any other str method: concretise the text (exhaustive forking over small domains, sampling otherwise)
+        and call the real method"""
+        if name.startswith('__') or not hasattr(str, name):
+            raise AttributeError(name)
+
+        def call(*a, **k):
+            ex = core.cur()
+            chars = [c if isinstance(c, int) else ex.concretize(c, HASH_CONC_LIMIT) for c in self.c]
+            plain = ''.join(map(chr, chars))
+            a2 = [to_plain(x) if isinstance(x, SymStr) and to_plain(x) is not None else x for x in a]
+            return getattr(plain, name)(*a2, **k)
+        return call
+
     def ljust(self, width, fill=' '):
         return mks(self.c + [ord(fill)] * max(0, width - len(self.c)))
 
@@ -290,15 +304,19 @@ def _sym_text(s):
 
 
 def re_match_at(pat, s, pos, full=False):
-    """Python's pattern.match(s, pos): first alternative whose guard is decided true"""
+    """Python's pattern.match(s, pos): alternatives in backtracking priority order, lazily; the first one whose guard
+    is decided true is the match"""
     if not isinstance(s, SymStr):
         s = SymStr(s)
     M = SreMatcher(pat, _sym_text(s))
-    for g, e, gr in M.match_at(pos):
-        if full:
-            g = b_and(g, e == len(s))
-        if g is True or (g is not False and bool(mkbool(to_z3(g)))):
-            return SymMatch(s, pos, e, gr, pat.groups)
+    try:
+        for g, e, gr in M.iter_alternatives(pos):
+            if full:
+                g = b_and(g, e == len(s))
+            if g is True or (g is not False and bool(mkbool(to_z3(g)))):
+                return SymMatch(s, pos, e, gr, pat.groups)
+    except RuntimeError as ex:
+        raise Unsupported(str(ex))
     return None
 
 
@@ -317,12 +335,14 @@ def re_fullmatch(pat, s):
     if not isinstance(s, SymStr):
         s = SymStr(s)
     M = SreMatcher(pat, _sym_text(s))
-    alts = M.seq(list(M.tree), 0, 0, ())
-    for g, e, gr in alts:
-        if e != len(s):
-            continue
-        if g is True or (g is not False and bool(mkbool(to_z3(g)))):
-            return SymMatch(s, 0, e, gr, pat.groups)
+    try:
+        for g, e, gr in M.iter_alternatives(0):
+            if e != len(s):
+                continue
+            if g is True or (g is not False and bool(mkbool(to_z3(g)))):
+                return SymMatch(s, 0, e, gr, pat.groups)
+    except RuntimeError as ex:
+        raise Unsupported(str(ex))
     return None
 
 
